@@ -183,10 +183,10 @@ static RunResult run_c17(const RunSpec &spec) {
         g_lalloc.disarm(); g_salloc.disarm(); g_disk.disarm();
         std::string c = v.clause.substr(v.clause.find('.') + 1);
         if (c == "rc") c = "retry";                     // the attempt during which nothing failed must behave normally
-        // clauses of the round-trip oracle can only fire here through a call that "completed" with a wrong code or a wrong effect
-        // although an allocation failed (its own check, C02 / C13, passes without faults)
-        if (c == "refused" || c == "refusal") c = "code";
-        if (c == "reparse" || c == "equiv" || c == "magic" || c == "utf8" || c == "line" || c == "charset" || c == "source_changed" || c == "once" || c == "result" || c == "content") c = "unchanged";
+        // (clauses of the round-trip oracle - refused, reparse, equiv, ... - judge the attempt of cif_write / cif_parse during which no
+        // allocation failed, so they belong to C02 / C13, known findings included; the codes returned by attempts that absorbed a
+        // failure are compared with that attempt's code inside ApiRun::api, A_REPEATABLE)
+        if (c == "source_changed" || c == "once" || c == "result" || c == "content") c = "unchanged";
         bool mine = c == "code" || c == "unchanged" || c == "args_valid" || c == "retry" || c == "leak" || c == "release" || c == "enumeration" || c == "memory" || c == "autocommit" || c == "dump" || c == "invariant" || c == "structure";
         if (c == "structure" || c == "dump" || c == "invariant") c = "unchanged";
         if (c == "release") c = "leak";
